@@ -65,12 +65,25 @@ def measure_log(ctx, ty, dtype, per_cell):
     t = X.tensor().clone()
     t[:, off:off + 4] = t[:, off:off + 4] / t[:, off:off + 4].norm(dim=-1, keepdim=True)
     X = pp.LieTensor(t, ltype=X.ltype)
-    Lg = X.Log()
-    RT = Lg.Exp()
     tn = X.tensor().clone()
     tn[:, off:off + 4] = -tn[:, off:off + 4]
-    Ln = pp.LieTensor(tn, ltype=X.ltype).Log()
-    Li = X.Inv().Log()
+    Xn = pp.LieTensor(tn, ltype=X.ltype)
+
+    def every_other_row_in_a_batch_with_extent_3(f, Z):
+        """"any batch shape": f on the flat batch, with the odd rows taken from the same rows evaluated in a batch folded as
+        (-1, 2, 3) (an extent equal to the size of a coordinate axis)."""
+        flat = f(Z)
+        n_ = Z.shape[0]
+        pad3 = (-n_) % 6
+        Zp = pp.LieTensor(torch.cat([Z.tensor(), Z.tensor()[:1].expand(pad3, -1)]), ltype=Z.ltype) if pad3 else Z
+        folded = f(Zp.lview(-1, 2, 3))
+        ft = flat.tensor().clone()
+        ft[1:n_:2] = folded.tensor().reshape(-1, ft.shape[-1])[1:n_:2]
+        return pp.LieTensor(ft, ltype=flat.ltype)
+    Lg = every_other_row_in_a_batch_with_extent_3(lambda Z: Z.Log(), X)
+    RT = every_other_row_in_a_batch_with_extent_3(lambda Z: Z.Exp(), Lg)
+    Ln = every_other_row_in_a_batch_with_extent_3(lambda Z: Z.Log(), Xn)
+    Li = every_other_row_in_a_batch_with_extent_3(lambda Z: Z.Inv().Log(), X)
     ident = getattr(pp, "identity_" + ty)(dtype=dtype).tensor()
     ro = {"SO3": (0, 3), "SE3": (3, 6), "RxSO3": (0, 3), "Sim3": (3, 6)}[ty]       # rotation slots of the algebra
     so = {"SO3": None, "SE3": None, "RxSO3": 3, "Sim3": 6}[ty]                     # log-scale slot
